@@ -17,6 +17,9 @@ pub enum MEdit {
     IdRedirected { ptr: String, to: String },
     NumberZeroed { ptr: String },
     NumberNegated { ptr: String },
+    /// float noise: the number moves by `delta` (an editor that derives values from geometry
+    /// produces 359.99998 or -0.000001 where the file had 0)
+    NumberNudged { ptr: String, delta: f64 },
     // ---- editor operations (the way the web editor builds a model element by element)
     AddSpace { n: u32 },
     AddWallCons { n: u32 },
@@ -52,6 +55,7 @@ impl MEdit {
             MEdit::IdRedirected { .. } => "model.id_redirected",
             MEdit::NumberZeroed { .. } => "model.number_zeroed",
             MEdit::NumberNegated { .. } => "model.number_negated",
+            MEdit::NumberNudged { .. } => "model.number_nudged",
             MEdit::AddSpace { .. } => "edit.add_space",
             MEdit::AddWallCons { .. } | MEdit::AddWinCons { .. } => "edit.add_cons",
             MEdit::AddWall { .. } => "edit.add_wall",
@@ -78,7 +82,8 @@ impl MEdit {
             | MEdit::ArrayTruncated { ptr }
             | MEdit::IdRedirected { ptr, .. }
             | MEdit::NumberZeroed { ptr }
-            | MEdit::NumberNegated { ptr } => ptr.clone(),
+            | MEdit::NumberNegated { ptr }
+            | MEdit::NumberNudged { ptr, .. } => ptr.clone(),
             _ => String::new(),
         };
         generic(&p)
@@ -291,6 +296,13 @@ pub fn apply(m: &mut Value, e: &MEdit, serial: u64) -> bool {
                 } else {
                     return false;
                 }
+                true
+            }
+            _ => false,
+        },
+        MEdit::NumberNudged { ptr, delta } => match m.pointer_mut(ptr) {
+            Some(v) if v.is_f64() => {
+                *v = json!(v.as_f64().unwrap_or(0.0) + delta);
                 true
             }
             _ => false,
@@ -516,6 +528,10 @@ pub fn enumerate_single(m: &Value) -> Vec<MEdit> {
                 if n.as_f64() != Some(0.0) {
                     out.push(MEdit::NumberZeroed { ptr: ptr.clone() });
                     out.push(MEdit::NumberNegated { ptr: ptr.clone() });
+                }
+                if n.is_f64() {
+                    out.push(MEdit::NumberNudged { ptr: ptr.clone(), delta: -0.000001 });
+                    out.push(MEdit::NumberNudged { ptr: ptr.clone(), delta: 0.000001 });
                 }
             }
             _ => {}
